@@ -168,4 +168,7 @@ def run(c, prog):
     rule_order(c, prog)
     rule_frame(c, prog)
     rule_conserve(c, prog)
+    from . import C12, C09
+    C09.rule_link(core.Alias(c, "C10"), prog)    # link / unlink pairing and ordering are also what `exactly its documented effect` needs
+    C12.rule_book(core.Alias(c, "C10"), prog, reader_rule=False)    # membership changes only through inner_insert/inner_remove: nothing else adds or drops instances or ids
     c.not_decided += ["comparison with a reference model after every step of every history (a run)"]
